@@ -134,13 +134,14 @@ def scenarios(tier: str) -> list[Scenario]:
              op('extremove', 'm~00.pickle'), op('extremove', 'm~01.html'), op('extcreate', 'm~02.html'),
              op('load', 'm.pickle'), op('load', 'm~00.pickle'), op('load', 'm~01.pickle')],
             [set(), {'m.html', 'm~01.html', 'm.pickle', 'm~01.pickle', 'm~03.pickle'}],
-            9, max_env=3, max_index=16, simulate=dict(num=400)))
+            9, max_env=3, max_index=16, simulate=dict(num=250)))
     return out
 
 
 # ------------------------------------------------------------------ the real objects
 _CACHE: dict = {}
 OPENED: list = []
+LISTED: list = []  # what files_of_type('pickle') returned before the last recycle
 _HOOKED = False
 
 
@@ -290,6 +291,8 @@ def execute(o: dict, objects: dict, sigs: dict, counter: list):
         return database(o['a']).dump_on_file(), None
     if k in ('estimate', 'recycle'):
         m = real_model(o['a'])
+        if k == 'recycle':
+            LISTED[:] = m.files_of_type('pickle')
         res = m.estimate(recycle=(k == 'recycle'))
         if OPENED:  # results were read from a file
             return '', signature(res)
@@ -358,6 +361,7 @@ def replay(item: dict) -> dict:
                     planted = True
                 before = snapshot()
                 del OPENED[:]
+                del LISTED[:]
                 try:
                     ret, loaded_sig = execute(o, objects, sigs, counter)
                     err = None
@@ -365,7 +369,7 @@ def replay(item: dict) -> dict:
                     ret, loaded_sig, err = '', None, f'{type(e).__name__}: {str(e)[:200]}'
                 opened = OPENED[-1] if OPENED else ''
                 after = snapshot()
-                steps_rec.append(dict(op=o, before=before, after=after, ret=ret or '', opened=opened))
+                steps_rec.append(dict(op=o, before=before, after=after, ret=ret or '', opened=opened, listed=['-'] + sorted(LISTED)))
                 n += 1
                 ctx = dict(step=j + 1, op=o, before=sorted(x for x in before if x != SENTINEL))
                 if err is not None:
@@ -405,7 +409,8 @@ def encode_trace(tid: int, steps: list) -> dict:
     def enc(snap):
         return [dict(n=n, s=ids.setdefault(h, len(ids) + 1)) for n, h in sorted(snap.items())]
 
-    return dict(tid=tid, steps=[dict(op=s['op'], before=enc(s['before']), after=enc(s['after']), ret=s['ret'], opened=s['opened'])
+    return dict(tid=tid, steps=[dict(op=s['op'], before=enc(s['before']), after=enc(s['after']), ret=s['ret'], opened=s['opened'],
+                                     listed=s['listed'])
                                 for s in steps])
 
 
